@@ -5,9 +5,10 @@ import (
 	"fmt"
 	"os"
 	"path/filepath"
+	"runtime/debug"
+	"runtime/pprof"
 	"sort"
 	"strings"
-	"sync"
 	"time"
 
 	"golang.org/x/tools/go/packages"
@@ -16,7 +17,6 @@ import (
 
 	"verif/internal/contract"
 	"verif/internal/smt"
-	"verif/internal/solve"
 	"verif/internal/symex"
 )
 
@@ -30,13 +30,22 @@ var (
 	flagPkgs    = flag.String("pkgs", "oj,gen,sen,jp,alt,asm,pretty,.", "ojg packages to load")
 	flagJobs    = flag.Int("j", 16, "parallel solver jobs")
 	flagList    = flag.Bool("list", false, "list obligations only")
+	flagDiag    = flag.Bool("diag", false, "diagnose failures (failing conjuncts, candidate models)")
+	flagProf    = flag.String("cpuprofile", "", "write cpu profile")
+	flagOnly    = flag.String("only", "", "discharge only obligations whose name contains this")
 	flagMutate  = flag.String("mutate", "", "in-memory mutation 'relpath@@old@@new' (first occurrence; testing the engine)")
 )
 
 const ojg = "github.com/ohler55/ojg"
 
 func main() {
+	debug.SetGCPercent(800)
 	flag.Parse()
+	if *flagProf != "" {
+		f, _ := os.Create(*flagProf)
+		pprof.StartCPUProfile(f)
+		defer pprof.StopCPUProfile()
+	}
 	t0 := time.Now()
 	var pats []string
 	for _, p := range strings.Split(*flagPkgs, ",") {
@@ -125,73 +134,48 @@ func main() {
 		}
 		return
 	}
+	if *flagOnly != "" {
+		var keep []*symex.Oblig
+		for _, o := range eng.Obligs {
+			if strings.Contains(o.Name, *flagOnly) {
+				keep = append(keep, o)
+			}
+		}
+		eng.Obligs = keep
+	}
 	// discharge
-	type res struct {
-		o *symex.Oblig
-		v solve.Verdict
-	}
-	results := make([]res, len(eng.Obligs))
-	var wg sync.WaitGroup
-	sem := make(chan struct{}, *flagJobs)
-	var mu sync.Mutex
-	scripts := make([]string, len(eng.Obligs))
-	for i, o := range eng.Obligs {
-		results[i].o = o
-		if o.Trivial {
-			results[i].v = solve.Verdict{Status: "unsat", By: "simplifier"}
-			continue
-		}
-		scripts[i] = symex.ObligScript(o, true)
-	}
-	_ = mu
-	for i := range eng.Obligs {
-		if eng.Obligs[i].Trivial {
-			continue
-		}
-		wg.Add(1)
-		sem <- struct{}{}
-		go func(i int) {
-			defer wg.Done()
-			defer func() { <-sem }()
-			results[i].v = solve.Decide(scripts[i], time.Duration(*flagTimeout)*time.Second, false)
-		}(i)
-	}
-	wg.Wait()
+	results := symex.Discharge(eng.Obligs, symex.DischargeOpts{Timeout: time.Duration(*flagTimeout) * time.Second, Jobs: *flagJobs, Diagnose: *flagDiag})
 	nfail := 0
 	byStatus := map[string]int{}
-	var slow []res
+	var slow []symex.Result
 	for i, r := range results {
-		byStatus[r.v.Status]++
-		if r.v.Status != "unsat" {
+		byStatus[r.Status]++
+		if r.Status != "unsat" {
 			nfail++
-			fmt.Printf("FAIL [%s] %s  (%s) %s\n", r.v.Status, r.o.Name, r.o.Pos, r.o.Note)
+			fmt.Printf("FAIL [%s] %s  (%s) %s\n", r.Status, r.O.Name, r.O.Pos, r.O.Note)
+			if r.Diag != "" {
+				fmt.Print(r.Diag)
+			}
 			if *flagDump != "" {
 				os.MkdirAll(*flagDump, 0o755)
 				fn := filepath.Join(*flagDump, fmt.Sprintf("fail%04d.smt2", i))
-				os.WriteFile(fn, []byte("; "+r.o.Name+"\n"+scripts[i]), 0o644)
-				for _, sr := range r.v.Results {
-					if sr.Answer == "sat" {
-						os.WriteFile(fn+".model", []byte(sr.Output), 0o644)
-					}
-				}
+				os.WriteFile(fn, []byte("; "+r.O.Name+"\n"+r.Script), 0o644)
+				os.WriteFile(fn+".out", []byte(r.Output), 0o644)
 			}
-		} else if *flagDumpAll && *flagDump != "" {
-			os.MkdirAll(*flagDump, 0o755)
-			os.WriteFile(filepath.Join(*flagDump, fmt.Sprintf("ok%04d.smt2", i)), []byte("; "+r.o.Name+"\n"+scripts[i]), 0o644)
 		}
-		if r.v.Secs > 2 {
+		if r.Secs > 2 {
 			slow = append(slow, r)
 		}
-		if *flagV && r.v.Status == "unsat" {
-			fmt.Printf("ok   [%s %.2fs] %s\n", r.v.By, r.v.Secs, r.o.Name)
+		if *flagV && r.Status == "unsat" {
+			fmt.Printf("ok   [%s %.2fs] %s\n", r.By, r.Secs, r.O.Name)
 		}
 	}
-	sort.Slice(slow, func(i, j int) bool { return slow[i].v.Secs > slow[j].v.Secs })
+	sort.Slice(slow, func(i, j int) bool { return slow[i].Secs > slow[j].Secs })
 	for i, r := range slow {
 		if i >= 10 {
 			break
 		}
-		fmt.Printf("slow %.1fs %s\n", r.v.Secs, r.o.Name)
+		fmt.Printf("slow %.1fs %s\n", r.Secs, r.O.Name)
 	}
 	fmt.Printf("obligations=%d %v failed=%d wall=%.1fs\n", len(results), byStatus, nfail, time.Since(t0).Seconds())
 	for _, n := range eng.Notes {
